@@ -67,3 +67,7 @@ chk("C15","exploration",
  "every assignment of (link value incl. absent, time) to small a/b event sets x FOLLOWED BY / PRECEDED BY x WHERE placements x LIMIT x layouts x shard counts on the real engine; constraint oracle from the statement (pairs linked, ordered, WHERE-satisfying; matched a-set == a-events with a qualifying partner; LIMIT bounds pairs) plus cross-layout agreement",
  "which qualifying partner a pair carries is not prescribed; exact-case known findings in known/C15.*.json",
  "bounded exhaustive enumeration of event sets x queries against a constraint oracle","histx product mode","DESIGN.md §3 C15")
+chk("C14","model_checking",
+ "all sequences of length d over {STORE in the same millisecond / 1 ms later / next second, FLUSH, COMPACT, RESTART, SHOW+QUERY} with REMEMBER at every position, followed by two SHOWs and a second REMEMBER, for several remembered queries and 1-2 shards, on the real engine with an injected clock; each SHOW must equal the live query issued right after it, each event once",
+ "clock owned by interposing clock_gettime; exact-case known findings in known/C14.*.json",
+ "exhaustive bounded history enumeration of the real implementation with a differential oracle (SHOW vs live QUERY)","histx","DESIGN.md §3 C14")
